@@ -50,6 +50,10 @@ func (fv *FuncVC) doCall(in ssa.Instruction, c *ssa.CallCommon, args []*Val, clo
 	}
 	pos := in.Pos()
 	if b, ok := c.Value.(*ssa.Builtin); ok {
+		// call-site clauses may name a builtin ("callassert builtin.delete : ...")
+		bk := []string{"builtin." + b.Name()}
+		fv.callOrd[bk[0]]++
+		fv.callAsserts(bk, fv.callOrd[bk[0]], args, nil, nil, "before", pos)
 		return fv.builtin(b, c, args, resT, pos)
 	}
 	if _, isGo := in.(*ssa.Go); !isGo {
@@ -89,6 +93,9 @@ func (fv *FuncVC) doCall(in ssa.Instruction, c *ssa.CallCommon, args []*Val, clo
 	if r, ok := fv.primitive(keys, c, args, resT, pos); ok {
 		fv.callAsserts(keys, ord, args, callee, r, "after", pos)
 		return r
+	}
+	if _, isGo := in.(*ssa.Go); !isGo && callee != nil && callee.Blocks != nil {
+		fv.guardNoRelock(callee, pos)
 	}
 	con := fv.findContract(keys)
 	var res *Val
@@ -298,7 +305,7 @@ func (fv *FuncVC) applyContract(con *Contract, callee *ssa.Function, c *ssa.Call
 	} else {
 		res = fv.havocVal("r."+sanitize(key), resT)
 	}
-	post := &Env{fv: fv, st: fv.cur, old: pre, vars: env.vars, allocOld: allocOld}
+	post := &Env{fv: fv, st: fv.cur, old: pre, vars: env.vars, allocOld: allocOld, calleeView: true}
 	var sig *types.Signature
 	if c != nil {
 		sig = c.Signature()
@@ -925,6 +932,10 @@ func (fv *FuncVC) callAsserts(keys []string, ord int, args []*Val, callee *ssa.F
 			}
 		}
 		fv.reportSpecErrs(env, ca.Clause)
+		if fv.caHits == nil {
+			fv.caHits = map[*CallAssert]int{}
+		}
+		fv.caHits[ca]++
 		label := ca.Clause.Label
 		if label == "" {
 			label = "callassert"
